@@ -44,11 +44,31 @@ impl Randomness {
 //@end
 }
 
-//@spec scp_spec ipa_spec
+//@use h2c
+//@spec h2c_spec scp_spec ipa_spec
 pub struct InnerProductArgPC;
 impl InnerProductArgPC {
-    // compute_random_oracle_challenge loops over a hash until from_random_bytes succeeds: taken by contract (deterministic function of the bytes)
-    #[verifier::external_body] fn compute_random_oracle_challenge(bytes: &[u8]) -> (r: Fr) ensures r@ == ro_chal(bytes@) { unimplemented!() }
+//@fn id=ipa.compute_random_oracle_challenge file=poly-commit/src/ipa_pc/mod.rs scope="impl<G, D, P> InnerProductArgPC<G, D, P>" name=compute_random_oracle_challenge props=C10,C11,C03
+    #[verifier::exec_allows_no_decreases_clause]
+    fn compute_random_oracle_challenge(bytes: &[u8]) -> (r: Fr)
+    ensures
+        r@ == ro_chal(bytes@),   // name=ipa.compute_random_oracle_challenge.first_field_element_of_the_sequence_over_the_whole_byte_string props=C10,C11,C03
+//@body
+//@rw 1 /let mut challenge = None;/ => let mut challenge: Option<Fr> = None;
+//@rw 1 /bytes\.to_vec\(\)/ => bytes_to_vec(bytes)
+//@rw 1 /hash_input\.extend\((\w+)\.to_le_bytes\(\)\);/ => bytes_extend(&mut hash_input, &u64_to_le_bytes(\1));
+//@rw 1 /D::digest\(&hash_input\.as_slice\(\)\)/ => digest(hash_input.as_slice())
+//@rw 1 /<G::ScalarField as Field>::from_random_bytes\(/ => field_from_random_bytes(
+//@rw 1 /i \+= 1;/ => ctr_inc_u64(&mut i);
+//@loop 1 kw=while
+            invariant i as nat == tt, forall|t2: nat| t2 + (if challenge is Some { 1nat } else { 0nat }) < tt ==> ro_attempt(bytes@, t2) is None, challenge is Some ==> (tt >= 1 && challenge == ro_attempt(bytes@, (tt - 1) as nat)),
+//@beforeloop 1
+        let ghost mut tt: nat = 0;
+//@loopend 1
+            proof { tt = tt + 1; }
+//@before /challenge\.unwrap\(\)/
+        proof { assert(ro_first(bytes@, (tt - 1) as nat)); lemma_ro_first_unique(bytes@, (tt - 1) as nat); }
+//@end
 
 //@fn id=ipa.cm_commit file=poly-commit/src/ipa_pc/mod.rs scope="impl<G, D, P> InnerProductArgPC<G, D, P>" name=cm_commit props=C08,C07,C10
     fn cm_commit(comm_key: &[G1Affine], scalars: &[Fr], hiding_generator: Option<G1Affine>, randomizer: Option<Fr>) -> (r: G1)
